@@ -145,5 +145,54 @@ func init() {
 		}
 		aliasRun(c, "C05.alias", calls)
 	})
+	// secondary text paths (String, StringTag, Pretty*, BytesString, fmt verbs, MarshalText) through the model
+	wrap("C03", func(c *Ctx) {
+		for i := 0; i < 3000; i++ {
+			pre := []string{"", "alpha", "alpha.1", "rc-1.0", "0", "x-y.z"}[c.R.Intn(6)]
+			build := []string{"", "b", "exp.sha.5114f85", "001"}[c.R.Intn(4)]
+			n := func() uint64 {
+				switch c.R.Intn(4) {
+				case 0:
+					return 0
+				case 1:
+					return 1<<64 - 1
+				case 2:
+					return uint64(c.R.Intn(1000))
+				}
+				return c.R.Next()
+			}
+			c.Op(fmt.Sprintf("sem.paths %d %d %d %s %s", n(), n(), n(), hx([]byte(pre)), hx([]byte(build))))
+		}
+	})
+	wrap("C13", func(c *Ctx) {
+		for i := 0; i < 4000; i++ {
+			var n uint64
+			switch c.R.Intn(5) {
+			case 0:
+				n = uint64(c.R.Intn(5000))
+			case 1:
+				n = (1 + 2*uint64(c.R.Intn(600))) << uint(c.R.Intn(64))
+			case 2:
+				n = 1<<64 - 1 - uint64(c.R.Intn(3))
+			case 3:
+				n = 1000 << uint(10*c.R.Intn(6))
+			default:
+				n = c.R.Next()
+			}
+			c.Op(fmt.Sprintf("size.paths %d", n))
+		}
+	})
+	wrap("C05", func(c *Ctx) {
+		for i := 0; i < 3000; i++ {
+			hi, lo := c.R.Next(), c.R.Next()
+			if i%50 == 0 {
+				hi, lo = 0, 0
+			}
+			if i%50 == 1 {
+				hi, lo = 1<<64-1, 1<<64-1
+			}
+			c.Op(fmt.Sprintf("uu.paths %d %d", hi, lo))
+		}
+	})
 	_ = time.January
 }
